@@ -9,11 +9,16 @@ TLEXPORT_MODULES = ["tlexport.packet", "tlexport.tlsrecord", "tlexport.session",
                     "tlexport.quic.quic_tls_parser", "tlexport.quic.quic_output_builder", "tlexport.quic.quic_packet"]
 
 
-def setup_symbolic():
-    """Import the repository unmodified and inject the shims / models (stub mode)."""
+def setup_symbolic(fresh=False):
+    """Import the repository unmodified and inject the shims / models (stub mode).  fresh: import new module objects (the state of a
+    new process: module globals, caches) although the package was imported before."""
     import importlib
+    import sys
     from tlv.sx import shims
     from tlv.models import dpkt_model
+    if fresh:
+        for k in [k for k in sys.modules if k == "tlexport" or k.startswith("tlexport.")]:
+            del sys.modules[k]
     mods = {}
     for name in TLEXPORT_MODULES:
         m = importlib.import_module(name)
